@@ -317,6 +317,8 @@ Proof.
   destruct (print_ltails_ends_lf (x :: xs)) as [a Ha]; [discriminate|]. rewrite Ha. apply col_after_lf.
 Qed.
 
+Lemma colon_nocr : nocr 58. Proof. charfact. Qed.
+
 Lemma colon_stopc : stopc 58. Proof. unfold stopc, lbc. repeat split; try discriminate; reflexivity. Qed.
 
 (* the round of the loop for an item that has a value (same script for flow and block values) *)
@@ -338,7 +340,7 @@ Ltac value_case :=
       assert (Hrs5 : s_rest s5 = value_text v trail ++ c0 :: t0)
         by (unfold s5; erewrite rest_after; [|exact Hrs4']; rewrite Ev; reflexivity);
       assert (Hc5 : s_col s5 <> 0)
-        by (unfold s5; rewrite (col_after _ _ (sp_colc _)), sp_length; lia);
+        by (unfold s5; rewrite (col_after _ _ (sp_colc _)), sp_length; clear - Hvsp; lia);
       assert (Hp5 : peek s5 0 = Ok cv) by (eapply peek0; rewrite Hrs5, Ev; reflexivity);
       destruct (Hscan s5 c0 t0 Hc5 Hc0 Hrs5) as (consumed & xs' & Esplit & Hxs' & Hcol' & Hval)
   end;
@@ -357,13 +359,13 @@ Ltac value_case_end IH r' f n HREST :=
     Esplit : value_text ?v ?trail = ?consumed ++ print_ltails ?xs' |- _ =>
       let toks := fresh "toks" in let Ht := fresh "Ht" in let Hs := fresh "Hs" in
       destruct (IH r') with (fuel := f) (s := after s5 consumed) (xs := xs') as (toks & Ht & Hs);
-      [ cbn [length] in *; lia
+      [ assumption
       | assumption
       | assumption
       | assumption
       | split; [|split; assumption];
         apply rest_after; rewrite Hrs5, Esplit, <- HREST, <- !app_assoc; reflexivity
-      | cbn [length] in *; lia
+      | assumption
       | rewrite Ht; eexists; split; [reflexivity|];
         cbn [meaning_items app]; apply ts_kv; exact Hs ]
   end.
@@ -427,17 +429,19 @@ Proof.
       set (s2 := after s1 (print_key k ++ sp j)) in *.
       assert (Hrs2 : s_rest s2 = [] ++ sp (ksp - j) ++ 58 :: x :: tx).
       { unfold s2. apply rest_after. rewrite Hrs1, <- !app_assoc. f_equal. cbn [app].
-        rewrite app_assoc. f_equal. unfold sp. rewrite <- repeat_app. f_equal. lia. }
+        rewrite app_assoc. f_equal. unfold sp. rewrite <- repeat_app. f_equal. clear - Hj. lia. }
       pose proof (stnt_spec [] s2 (ksp - j) 58 _ eq_refl colon_stopc Hrs2) as H3.
       cbn [print_ltails map concat app] in H3.
       set (s3 := after s2 (sp (ksp - j))) in *.
       assert (Hrs3 : s_rest s3 = [58] ++ x :: tx) by (unfold s3; apply rest_after; exact Hrs2).
       assert (Hp3 : peek s3 0 = Ok 58) by (eapply peek0; exact Hrs3).
       assert (Hf3 : forward s3 1 = Ok (after s3 [58])).
-      { apply (forward_after [58] s3 (x :: tx)); [repeat constructor; charfact | exact Hrs3]. }
+      { apply (forward_after [58] s3 (x :: tx)); [constructor; [exact colon_nocr | constructor] | exact Hrs3]. }
       set (s4 := after s3 [58]) in *.
       assert (Hrs4 : s_rest s4 = sp (value_vsp v) ++ value_text v trail ++ c0 :: t0).
       { unfold s4. erewrite rest_after; [|exact Hrs3]. symmetry. exact Ex. }
+      assert (Hn' : (length r' <= n)%nat) by (cbn [length] in Hn, HL5; clear - Hn HL5; lia).
+      assert (Hf' : (length r' < f)%nat) by (cbn [length] in Hf, HL5; clear - Hf HL5; lia).
       destruct v as [tsp cm|vsp fl tsp cm|vsp folded h lead indent first more].
       * (* key only: everything up to the next key is skipped *)
         pose proof (lead_comments_spec r' Hwf') as HL'. pose proof (lead_comments_ok r' Hok') as Hok''.
@@ -476,9 +480,9 @@ Proof.
         rewrite (tok_iter_key_only s s1 c s2 (key_meaning k) s3 s4 s5 c1 H1 Hp1
                    (key_start_not_end _ Hkc) Hcs1 Hkey H3 Hp3 Hf3 H5 (peek0 _ _ _ Hrs5) Hc5).
         destruct (IH r'') with (fuel := f) (s := s5) (xs := @nil ltail) as (toks & Ht & Hs); auto.
-        { cbn [length] in Hn, HL5. lia. }
+        { clear - Hn' HM5. lia. }
         { split; [|split; auto]. cbn [print_ltails map concat app]. rewrite Hrs5. symmetry. exact HREST1. }
-        { cbn [length] in Hf, HL5. lia. }
+        { clear - Hf' HM5. lia. }
         rewrite Ht. eexists. split; [reflexivity|].
         cbn [meaning_items app value_meaning]. rewrite HM4. apply ts_k. exact Hs.
       * (* a flow value *) value_case. value_case_end IH r' f n HREST.
